@@ -510,7 +510,7 @@ func genC03(c *Ctx) {
 		tok := encPos(p)
 		out := c.Emit("allmoves " + tok)
 		c.Emit("slegal " + tok)
-		c.Count("nmoves~" + strconv.Itoa(len(strings.Fields(out))/32*32))
+		c.Count("nmoves>=" + bucket2(len(strings.Fields(out))))
 	}
 }
 
